@@ -188,6 +188,20 @@ func runCase(c c14Case) (f *vh.Failure) {
 	if errors.Is(err, context.DeadlineExceeded) {
 		return vh.Failf("C14/blocks-beyond-bound", "%s: NextPackage blocked for %v without reporting the failure", where, time.Since(t0))
 	}
+	// a consumer that asks again must not block either:
+	// the transport stays failed
+	for i := 0; i < 3; i++ {
+		t1 := time.Now()
+		wctx, wcancel := context.WithTimeout(ctx, bound)
+		p, err := ch.NextPackage(wctx, true)
+		wcancel()
+		if err == nil {
+			return vh.Failf("C14/package-after-failure", "%s: call %d after the failure returned a package %T", where, i+2, p)
+		}
+		if errors.Is(err, context.DeadlineExceeded) {
+			return vh.Failf("C14/blocks-beyond-bound", "%s: NextPackage number %d after the failure blocked for %v (only the first call was told about the failure)", where, i+2, time.Since(t1))
+		}
+	}
 	inPacket := c.K > 0 && c.K < len(tcp)
 	for _, e := range ends {
 		if e == c.K {
